@@ -96,7 +96,8 @@ Definition inter_sh (a b : wc) : shape :=
 
 Definition intersection (a b : wc) : wc := {| sh := inter_sh a b; wtns := wtns a |}.
 
-(* namespace part of XsdWildcard.is_restriction(self=a, other=b) *)
+(* namespace part of XsdWildcard.is_restriction(self=a, other=b); the two wildcards may belong to schema documents with
+   different target namespaces (a type restricting a type of an imported namespace) *)
 Definition is_restriction (a b : wc) : bool :=
   match sh a, sh b with
   | SNot l, SNot l' => subsetb l' l
@@ -104,10 +105,10 @@ Definition is_restriction (a b : wc) : bool :=
   | SNot l, SOther => memb 0%N l && memb (wtns b) l
   | SNot _, SList _ => false
   | SAny, SNot _ => false
-  | SOther, SNot l' => subsetb l' [0%N; wtns b]
+  | SOther, SNot l' => subsetb l' [0%N; wtns a]
   | SList l, SNot l' => forallb (fun n => negb (memb n l')) l
   | sa, sb =>
-      if ns_eq sa sb then true
+      if ns_eq sa sb && (match sa with SOther => N.eqb (wtns a) (wtns b) | _ => true end) then true
       else match sa, sb with
            | _, SAny => true
            | SAny, _ => false
@@ -116,6 +117,15 @@ Definition is_restriction (a b : wc) : bool :=
            | SList l, SList l' => subsetb l l'
            | _, _ => false
            end
+  end.
+
+(* the rule before repo fix beb3bf4: two ##other wildcards were equal whatever their target namespaces, and a ##other
+   against a notNamespace base was judged with the target namespace of the base *)
+Definition is_restriction_old (a b : wc) : bool :=
+  match sh a, sh b with
+  | SOther, SNot l' => subsetb l' [0%N; wtns b]
+  | SOther, SOther => true
+  | _, _ => is_restriction a b
   end.
 
 (* XsdAnyElement.is_overlap(self=a, other=b), both wildcards *)
